@@ -62,6 +62,10 @@ PROBES = [
     ("c10_get_then_insert", "C10", "misc/src/minimisers.rs",
      "                            result_arc_clone\n                                .entry(numeric_to_kmer(k, msize))\n                                .and_modify(|v| v.push((record.id.clone(), s, e)))\n                                .or_insert(vec![(record.id.clone(), s, e)]);",
      "                            let key = numeric_to_kmer(k, msize);\n                            let mut cur = result_arc_clone.read(&key, |_, v| v.clone()).unwrap_or_default();\n                            cur.push((record.id.clone(), s, e));\n                            result_arc_clone.upsert(key, cur);"),
+    # only reachable with >= 10 000 records (the progress tick)
+    ("c10_progress_tick_skips_record", "C10", "misc/src/minimisers.rs",
+     "                        let mut mins = Vec::new();\n                        mins.push(record.id);",
+     "                        if (record.n + 1) % 10000 == 0 {\n                            continue;\n                        }\n                        let mut mins = Vec::new();\n                        mins.push(record.id);"),
     ("c11_flush_before_push", "C11", "composition/src/cgr.rs",
      "                for record in records {\n                    total += record.seq.len();\n                    buffer.push(record);\n\n                    if total >= self.memory {\n                        process_buffer(&buffer);\n                        buffer.clear();\n                        total = 0;\n                    }\n                }",
      "                for record in records {\n                    total += record.seq.len();\n                    if total >= self.memory {\n                        process_buffer(&buffer);\n                        buffer.clear();\n                        total = 0;\n                        continue;\n                    }\n                    buffer.push(record);\n                }"),
